@@ -147,6 +147,73 @@ fn run(case: &HashMap<String, String>) -> String {
                 }
             }
         }
+        "txt_chunk" | "txt_long" | "txt_attr" | "txt_dup" => {
+            use std::collections::HashMap;
+            use std::convert::TryFrom;
+            let mut fails: Vec<&str> = Vec::new();
+            if entry == "txt_chunk" {
+                let text = std::str::from_utf8(&bytes).unwrap();
+                match crate::rdata::TXT::try_from(text) {
+                    Ok(t) => match String::try_from(t) {
+                        Ok(back) => if back != text { fails.push("lossy"); },
+                        Err(_) => fails.push("join"),
+                    },
+                    Err(_) => fails.push("reject"),
+                }
+            } else if entry == "txt_long" {
+                let text = std::str::from_utf8(&bytes).unwrap().to_string();
+                let mut want: HashMap<String, Option<String>> = HashMap::new();
+                for part in text.split(';') {
+                    let mut it = part.splitn(2, '=');
+                    let k = it.next().unwrap_or("");
+                    let v = it.next().map(|x| x.to_string());
+                    if !k.is_empty() { want.entry(k.to_string()).or_insert(v); }
+                }
+                let t = crate::rdata::TXT::new().with_char_string(crate::CharacterString::new(&bytes).unwrap());
+                match t.long_attributes() {
+                    Ok(got) => if got != want { fails.push("split"); },
+                    Err(_) => fails.push("reject"),
+                }
+            } else {
+                let get = |k: &str| case.get(k).map(|h| String::from_utf8(unhex(h)).unwrap());
+                let mut map: HashMap<String, Option<String>> = HashMap::new();
+                for i in 0..2 {
+                    if let Some(k) = get(&format!("k{}", i)) {
+                        map.insert(k, get(&format!("v{}", i)));
+                    }
+                }
+                match crate::rdata::TXT::try_from(map.clone()) {
+                    Ok(t) => if t.attributes() != map { fails.push("lossy"); },
+                    Err(_) => fails.push("reject"),
+                }
+            }
+            format!("{{\"outcome\":\"ok\",\"fails\":[{}]}}", fails.iter().map(|s| format!("\"{}\"", s)).collect::<Vec<_>>().join(","))
+        }
+        "reserialize" => {
+            let mut fails: Vec<String> = Vec::new();
+            match Packet::parse(&bytes) {
+                Ok(p) => {
+                    let shown = format!("{:?}", p);
+                    for (name, out) in [("plain", p.build_bytes_vec()), ("comp", p.build_bytes_vec_compressed())] {
+                        match out {
+                            Ok(b) => match Packet::parse(&b) {
+                                Ok(q) => {
+                                    if q.rcode() != p.rcode() {
+                                        fails.push(format!("rcode-{:?}", p.rcode()));
+                                    } else if format!("{:?}", q) != shown {
+                                        fails.push(format!("fields-{}", name));
+                                    }
+                                }
+                                Err(_) => fails.push(format!("reparse-{}", name)),
+                            },
+                            Err(_) => fails.push(format!("build-{}", name)),
+                        }
+                    }
+                    format!("{{\"outcome\":\"ok\",\"fails\":[{}]}}", fails.iter().map(|s| format!("\"{}\"", s)).collect::<Vec<_>>().join(","))
+                }
+                Err(_) => "{\"outcome\":\"err\",\"fails\":[]}".to_string(),
+            }
+        }
         "packet_frame" => {
             let wp: usize = case["walker_pos"].parse().unwrap();
             let mut fails: Vec<&str> = Vec::new();
